@@ -410,6 +410,7 @@ package protocol
 //@   props C09
 //@   modifies u._all
 //@   ensures sameArray(u.path, old(u.path)) && sameArray(u.pathOriginal, old(u.pathOriginal))
+//@   ensures sameArray(u.queryString, old(u.queryString)) && sameArray(u.hash, old(u.hash)) && sameArray(u.scheme, old(u.scheme)) && sameArray(u.host, old(u.host)) && sameArray(u.username, old(u.username)) && sameArray(u.password, old(u.password))
 //@   top-ensures isFresh(u)
 
 //@ func Cookie.Reset(c)
@@ -733,12 +734,28 @@ package protocol
 
 // URI.parse: panic-free for every host/uri; the path buffer and the original-path buffer stay separate arrays
 // (normalizePath's precondition), which parse itself preserves.
+// C17 (how a request target is split): for a target without scheme (a host is given, no ':' in the target, no
+// control bytes) and a URI object whose buffers share no array with each other or with the target (upOK), the
+// original path is the target up to its first '?' or '#', the query string is what follows a '?' up to the first
+// '#', and the fragment is everything after the first '#' - exactly, for every target.
+//@ ghost var upOK bool
+//@ macro uriApart(u, uri) = !mayAlias(uri, u.pathOriginal) && !mayAlias(uri, u.queryString) && !mayAlias(uri, u.hash) && !mayAlias(uri, u.path) && !mayAlias(uri, u.scheme) && !mayAlias(uri, u.host) && !mayAlias(uri, u.username) && !mayAlias(uri, u.password) && !mayAlias(u.pathOriginal, u.queryString) && !mayAlias(u.pathOriginal, u.hash) && !mayAlias(u.queryString, u.hash) && !mayAlias(u.path, u.queryString) && !mayAlias(u.path, u.hash)
 //@ func URI.parse(u, host, uri, isTLS)
-//@   props C03
+//@   props C03, C17
 //@   requires u != nil && !mayAlias(u.path, u.pathOriginal) && arr(u.pathOriginal) >= 0
-//@   modifies u._all, mem
+//@   modifies u._all, mem, upOK
 //@   allocates
+//@   ghostset-at-entry upOK = uriApart(u, uri) && len(host) > 0 && forall(k, 0, len(uri), uri[k] != ':' && uri[k] >= ' ' && uri[k] != 0x7f)
 //@   ensures !mayAlias(u.path, u.pathOriginal) && arr(u.pathOriginal) >= 0
+//@   ensures @C17 upOK ==> len(u.pathOriginal) <= len(uri)
+//@   ensures @C17 upOK ==> forall(k, 0, len(u.pathOriginal), u.pathOriginal[k] == uri[k])
+//@   ensures @C17 upOK ==> forall(k, 0, len(u.pathOriginal), uri[k] != '?' && uri[k] != '#')
+//@   ensures @C17 upOK && len(u.pathOriginal) < len(uri) ==> uri[len(u.pathOriginal)] == '?' || uri[len(u.pathOriginal)] == '#'
+//@   ensures @C17 upOK && len(u.pathOriginal) == len(uri) ==> len(u.queryString) == 0 && len(u.hash) == 0
+//@   ensures @C17 upOK && len(u.pathOriginal) < len(uri) && uri[len(u.pathOriginal)] == '#' ==> len(u.queryString) == 0 && len(u.hash) == len(uri) - len(u.pathOriginal) - 1 && forall(k, 0, len(u.hash), u.hash[k] == uri[k + len(u.pathOriginal) + 1])
+//@   ensures @C17 upOK && len(u.pathOriginal) < len(uri) && uri[len(u.pathOriginal)] == '?' ==> len(u.pathOriginal) + 1 + len(u.queryString) <= len(uri) && forall(k, 0, len(u.queryString), u.queryString[k] == uri[k + len(u.pathOriginal) + 1] && uri[k + len(u.pathOriginal) + 1] != '#')
+//@   ensures @C17 upOK && len(u.pathOriginal) < len(uri) && uri[len(u.pathOriginal)] == '?' && len(u.pathOriginal) + 1 + len(u.queryString) == len(uri) ==> len(u.hash) == 0
+//@   ensures @C17 upOK && len(u.pathOriginal) < len(uri) && uri[len(u.pathOriginal)] == '?' && len(u.pathOriginal) + 1 + len(u.queryString) < len(uri) ==> uri[len(u.pathOriginal) + 1 + len(u.queryString)] == '#' && len(u.hash) == len(uri) - len(u.pathOriginal) - len(u.queryString) - 2 && forall(k, 0, len(u.hash), u.hash[k] == uri[k + len(u.pathOriginal) + len(u.queryString) + 2])
 
 //@ func URI.LastPathSegment(u) r
 //@   props C03
